@@ -560,6 +560,89 @@ def windows(rnd, L, n):
     return [dict(L=L, start=rnd.randrange(0, top - 1000), bs=1000, nb=1) for _ in range(n)]
 
 
+# ----------------------------------------------------------------------------- the grammar that was transcribed
+# What C15/Law.v (D_elem / D_ser / D_par at doc = false) and C15/Model.v (lexer) transcribe.  Read from the tree under
+# test on every run, fail-closed: (a) the rule and terminal tables serialised inside _generated_parser.py, (b) the
+# rules of _dsl_grammar.lark with comments removed.  The LALR action table itself stays a black box.
+def _r(origin, expansion, expand1):
+    return [origin, [[n, "Terminal" if n.isupper() else "NonTerminal", f] for n, f in expansion], expand1, None, False]
+
+
+_E, _S, _A = ("element", False), ("series", False), ("anytrait", False)
+EXPECTED_TABLES = {
+    "terminals": [["WS", "PatternRE", "(?:[ \t\x0c\r\n])+", [], 0], ["NAME", "PatternRE", "[a-zA-Z_]\\w*", [], 0],
+                  ["ITEMS", "PatternStr", "items", [], 0], ["PLUS", "PatternStr", "+", [], 0],
+                  ["STAR", "PatternStr", "*", [], 0], ["DOT", "PatternStr", ".", [], 0], ["COLON", "PatternStr", ":", [], 0],
+                  ["LSQB", "PatternStr", "[", [], 0], ["RSQB", "PatternStr", "]", [], 0], ["COMMA", "PatternStr", ",", [], 0]],
+    "rules": [
+        _r("trait", [("NAME", False)], False),                                   # De_trait (and De_items' counterpart)
+        _r("items", [("ITEMS", True)], False),                                   # De_items
+        _r("metadata", [("PLUS", True), ("NAME", False)], False),                # De_meta
+        _r("anytrait", [("STAR", True)], False),                                 # De_any
+        _r("notify", [("DOT", True)], False), _r("quiet", [("COLON", True)], False),          # TC CDot / TC CColon
+        _r("element", [("trait", False)], True), _r("element", [("items", False)], True),
+        _r("element", [("metadata", False)], True),
+        _r("element", [("LSQB", True), ("parallel", False), ("RSQB", True)], True),           # De_br (doc = false)
+        _r("series", [_S, ("notify", False), _E], True), _r("series", [_S, ("quiet", False), _E], True),   # Ds_cons
+        _r("series", [_E], True),                                                               # Ds_one
+        _r("parallel", [("parallel", False), ("COMMA", True), _S], True), _r("parallel", [_S], True),      # Dp_cons / Dp_one
+        _r("series_terminal", [_S, ("notify", False), _E], True), _r("series_terminal", [_S, ("notify", False), _A], True),
+        _r("series_terminal", [_S, ("quiet", False), _E], True), _r("series_terminal", [_S, ("quiet", False), _A], True),
+        _r("series_terminal", [_E], True), _r("series_terminal", [_A], True),                   # D_ser _ true
+        _r("parallel_terminal", [("parallel_terminal", False), ("COMMA", True), ("series_terminal", False)], True),
+        _r("parallel_terminal", [("series_terminal", False)], True),                            # D_par _ true
+        _r("start", [("parallel_terminal", False)], True)],
+    "ignore": ["WS"], "lexer_type": "contextual", "g_regex_flags": 0, "start": ["start"], "parser_type": "lalr",
+    "options": {"keep_all_tokens": False, "maybe_placeholders": False, "regex": False, "lexer": "contextual",
+                "parser": "lalr", "start": ["start"], "postlex": None, "transformer": None, "tree_class": None,
+                "priority": "normal"},
+    "n_rules_memo": 24,
+}
+EXPECTED_LARK = [
+    'trait: NAME', 'items: "items"', 'metadata: "+" NAME', 'anytrait: "*"', 'notify: "."', 'quiet: ":"',
+    '?element: trait | items | metadata | "[" parallel "]"', '?series: (series (notify | quiet))? element',
+    '?parallel: (parallel ",")? series', '?series_terminal : (series (notify | quiet))? (element | anytrait)',
+    '?parallel_terminal : (parallel_terminal ",")? series_terminal', '?start: parallel_terminal',
+    'NAME: /[a-zA-Z_]\\w*/', '%import common.WS', '%ignore WS']
+
+
+def check_grammar(ctx):
+    from vlib import build_impl
+    rc, tabs, err = ctx.run_driver(DRIVER, dict(mode="grammar"))
+    diff = None
+    if rc != 0 or tabs is None:
+        diff = "cannot read the tables of _generated_parser.py: " + err[-300:]
+    else:
+        for k in EXPECTED_TABLES:
+            if tabs.get(k) != EXPECTED_TABLES[k]:
+                if k in ("rules", "terminals"):
+                    bad = [x for x in tabs.get(k, []) if x not in EXPECTED_TABLES[k]] + \
+                          [x for x in EXPECTED_TABLES[k] if x not in tabs.get(k, [])]
+                    diff = "%s differ: %s" % (k, json.dumps(bad)[:400])
+                else:
+                    diff = "%s = %r, transcribed as %r" % (k, tabs.get(k), EXPECTED_TABLES[k])
+                break
+    ctx.obligation("transcription: the 24 rules / 10 terminals / lexer options serialised in _generated_parser.py are "
+                   "the ones Law.v and Model.v transcribe", diff is None, diff or "equal")
+    if diff:
+        ctx.fail("grammar/tables-in-generated-parser-changed", "the grammar inside _generated_parser.py is no longer the "
+                 "one the Coq development transcribes (%s): the theorems speak about another grammar" % diff,
+                 dict(kind="transcription-broken", diff=diff), no_input=True)
+    path = os.path.join(build_impl.REPO, "traits", "observation", "_dsl_grammar.lark")
+    try:
+        lines = [" ".join(ln.split("//")[0].split()) for ln in open(path, encoding="utf-8")]
+        lines = [ln for ln in lines if ln]
+    except OSError as e:
+        lines = ["unreadable: %s" % e]
+    same = lines == EXPECTED_LARK
+    ctx.obligation("transcription: rules of _dsl_grammar.lark (comments removed) are the ones Law.v transcribes", same,
+                   "equal" if same else "differs: " + json.dumps([x for x in lines if x not in EXPECTED_LARK] +
+                                                                  [x for x in EXPECTED_LARK if x not in lines])[:400])
+    if not same:
+        ctx.fail("grammar/lark-source-changed", "_dsl_grammar.lark is no longer the grammar transcribed in C15/Law.v",
+                 dict(kind="transcription-broken", lines=lines), no_input=True)
+
+
 # ----------------------------------------------------------------------------- entry
 def run(ctx):
     ok, log = ctx.proofs(PROPS)
@@ -591,6 +674,7 @@ def run(ctx):
         proof_gate(ctx, ok, log, PROPS)
         return
     quick = ctx.tier == "quick"
+    check_grammar(ctx)
     # embedded cases first (corpus includes the triggers of the listed findings)
     t0 = time.time()
     cases = corpus() + derivation_cases(rnd, ctx, quick) + gen_cases(rnd, ctx, 1200 if quick else 12000)
